@@ -41,6 +41,14 @@ Theorem C18_b_receives_the_synchronised_content : forall path_b a b s,
 Proof. exact filesync_writes_b. Qed.
 Print Assumptions C18_b_receives_the_synchronised_content.
 
+(* whole-file form of "touches nothing else": if no tag pair of B carries a name that A defines, FileSync writes B back
+   byte for byte, whatever else A contains *)
+Theorem C18_no_shared_tag_b_unchanged : forall a (B : list bitem_s),
+  lines_okb (bflatten_s B) = true -> Forall (wf_bitem_s (tags_of a)) B -> Forall (unshared (tags_of a)) B ->
+  file_sync a (concat_lines (bflatten_s B)) = concat_lines (bflatten_s B).
+Proof. exact sync_no_shared_identity. Qed.
+Print Assumptions C18_no_shared_tag_b_unchanged.
+
 Definition ex_a : string :=
   concat_lines [bs [47;47;32;123;123;123;85;83;69;82;95;88;125;125;125;10]; bs [65;9;49;10]; bs [10]; bs [10];
                 bs [47;47;32;123;123;123;85;83;69;82;95;88;125;125;125;10]].
@@ -58,3 +66,17 @@ Example C18_nonvacuous :
                   bs [123;123;123;85;83;69;82;95;88;89;10]; bs [101]].
 Proof. split; vm_compute; reflexivity. Qed.
 Print Assumptions C18_nonvacuous.
+
+(* hypotheses of C18_no_shared_tag_b_unchanged are met by a B that has a tag pair (USER_XY) A does not define *)
+Definition ex_B2 : list bitem_s :=
+  [BPlain (bs [116;9;10]);
+   BBlock (bs [123;123;123;85;83;69;82;95;88;89;10]) [bs [9;107;10]; bs [10]; bs [10]] (bs [123;123;123;85;83;69;82;95;88;89;10]);
+   BPlain (bs [101])].
+Example C18_no_shared_nonvacuous :
+  lines_okb (bflatten_s ex_B2) = true /\ Forall (unshared (tags_of ex_a)) ex_B2 /\ tags_of ex_a <> [] /\
+  file_sync ex_a (concat_lines (bflatten_s ex_B2)) = concat_lines (bflatten_s ex_B2).
+Proof.
+  split; [vm_compute; reflexivity|]. split; [|split; [vm_compute; discriminate|vm_compute; reflexivity]].
+  repeat constructor; vm_compute; reflexivity.
+Qed.
+Print Assumptions C18_no_shared_nonvacuous.
